@@ -15,6 +15,8 @@ import Rare.Proofs.C05CloseInv
 import Rare.Proofs.C05SignalTrace
 import Rare.Proofs.C05HB
 import Rare.Proofs.C05HBTable
+import Rare.Proofs.C05HBChan
+import Rare.Proofs.C05HBChanDemo
 /-!
 # C05 — race-free, atomic renders, complete final render
 
@@ -793,6 +795,111 @@ theorem lockset_batcher_logger_executions_race_free
 example : Lockset.HB2.Abstracts Lockset.HB2.tblDemo (Lockset.HB2.statesOf Lockset.HB2.tblDemo)
     [Lockset.HB2.rowW, Lockset.HB2.rowR] Lockset.HB2.tblSite (fun _ => 0) ∧ ¬ Lockset.HB2.Race Lockset.HB2.tblDemo :=
   ⟨Lockset.HB2.tblDemo_abstracts, Lockset.HB2.tblDemo_no_race⟩
+
+/-! ### Channel edges: the `outputDone` hand-shake in the happens-before model (Proofs/C05HBChan.lean)
+
+The trace semantics of `lockset_disciplines_sound` extended with unbuffered channels (`sendB` – send chosen for the
+rendezvous, `recv`, `sendE` – send completed, `close`, `recvClosed`); happens-before gets the three channel rules of
+go.dev/ref/mem (send → corresponding receive; receive from an unbuffered channel → completion of the corresponding
+send; close → receive that returns because the channel is closed). -/
+
+/-- **The terminating hand-shake orders the final render after every periodic render.**  If only goroutine `t` (the
+    ticker) receives from the unbuffered channel `c` (`outputDone`) and does nothing after a receive from it
+    (`case <-outputDone: return`), then EVERYTHING `t` ever did – every periodic `writeOutput()` included – happens
+    before everything the sender does from the completion of its send on (`outputDone <- true`, then the final
+    `writeOutput()` that takes no lock).  All executions, any number of other goroutines and channels. -/
+theorem handshake_orders_final_render {tr : List Lockset.HBC.CEv} {hs : Nat → Lockset.HB2.Locks}
+    {cs : Nat → Nat → Lockset.HBC.ChSt} (hex : Lockset.HBC.ExecC tr hs cs)
+    {k : Nat} {e : Lockset.HBC.CEv} {c t : Nat} (hk : tr[k]? = some e) (hop : e.op = .sendE c)
+    (honly : ∀ (r : Nat) (er : Lockset.HBC.CEv), tr[r]? = some er → er.op = .recv c → er.tid = t)
+    (hlast : ∀ (r r' : Nat) (er e' : Lockset.HBC.CEv), tr[r]? = some er → er.op = .recv c → r < r' →
+      tr[r']? = some e' → e'.tid ≠ t)
+    {i j : Nat} {a b : Lockset.HBC.CEv} (ha : tr[i]? = some a) (hat : a.tid = t) (hb : tr[j]? = some b)
+    (hbt : b.tid = e.tid) (hkj : k ≤ j) : Lockset.HBC.HBc tr i j :=
+  Lockset.HBC.handshake_orders hex hk hop honly hlast ha hat hb hbt hkj
+
+/-- A completed send on an unbuffered channel has its receive: another goroutine received before, and that receive
+    happens before the completion of the send (so a sender that got past `outputDone <- true` knows the ticker took
+    the value – with the buffered channel of seeded/C05-buffered-done `sendE` needs no `recv` at all). -/
+theorem handshake_send_has_receive {tr : List Lockset.HBC.CEv} {hs : Nat → Lockset.HB2.Locks}
+    {cs : Nat → Nat → Lockset.HBC.ChSt} (hex : Lockset.HBC.ExecC tr hs cs)
+    {k : Nat} {e : Lockset.HBC.CEv} {c : Nat} (hk : tr[k]? = some e) (hop : e.op = .sendE c) :
+    ∃ r er, r < k ∧ tr[r]? = some er ∧ er.op = .recv c ∧ er.tid ≠ e.tid ∧ Lockset.HBC.HBc tr r k :=
+  Lockset.HBC.handshake_recv hex hk hop
+
+/-- **All disciplines of the role check, channel edge included**: if every conflicting pair of accesses of different
+    goroutines (not both atomic) holds a common mutex with at least one side exclusive, or is separated by the `go`
+    statement that started the later one's goroutine, or by a terminating hand-shake (the later one's goroutine
+    completed a send on an unbuffered channel only the earlier one's goroutine receives from, and that goroutine does
+    nothing after receiving), the execution has no data race. -/
+theorem lockset_disciplines_chan_sound {tr : List Lockset.HBC.CEv} {hs : Nat → Lockset.HB2.Locks}
+    {cs : Nat → Nat → Lockset.HBC.ChSt} (hex : Lockset.HBC.ExecC tr hs cs)
+    (hdisc : ∀ i j a b, i < j → tr[i]? = some a → tr[j]? = some b → Lockset.HBC.ConflictC a b → a.tid ≠ b.tid →
+      (∃ m la lb, Lockset.HB2.Holds (hs i) m a.tid la ∧ Lockset.HB2.Holds (hs j) m b.tid lb ∧ (la = true ∨ lb = true)) ∨
+      Lockset.HBC.GoSep tr i j a b ∨ Lockset.HBC.Handshake tr j a b) :
+    ¬ Lockset.HBC.RaceC tr :=
+  Lockset.HBC.discipline_no_race_chan hex hdisc
+
+/-- **From the role table of `RunAggregationLoop` to its executions.**  `AbstractsC` is the trusted link for a role
+    table (one goroutine per role): as `Abstracts`, except that an `ord` mark is NOT assumed to mean "ordered by
+    happens-before" but only what the extractor checks syntactically – the two sites are separated by the `go`
+    statement, or by a hand-shake on an unbuffered channel whose only receiver returns after the receive; the
+    happens-before order is then DERIVED (`handshake_orders_final_render`).  Any role table passing `raceFreeRoles`
+    has only data-race-free executions; instantiated with the regenerated table of `RunAggregationLoop`. -/
+theorem lockset_roles_sound_given_abstraction (accs : List Gen.Access.Acc)
+    (hrf : Lockset.raceFreeRoles accs = true)
+    {tr : List Lockset.HBC.CEv} {hs : Nat → Lockset.HB2.Locks} {cs : Nat → Nat → Lockset.HBC.ChSt}
+    {site : Nat → Option Gen.Access.Acc} {mid : String → Nat}
+    (hex : Lockset.HBC.ExecC tr hs cs) (habs : Lockset.HBC.AbstractsC tr hs accs site mid) :
+    ¬ Lockset.HBC.RaceC tr :=
+  Lockset.HBC.roles_no_race hex habs ((Lockset.raceFreeRoles_iff _).mp hrf)
+
+theorem lockset_aggloop_executions_race_free
+    {tr : List Lockset.HBC.CEv} {hs : Nat → Lockset.HB2.Locks} {cs : Nat → Nat → Lockset.HBC.ChSt}
+    {site : Nat → Option Gen.Access.Acc} {mid : String → Nat}
+    (hex : Lockset.HBC.ExecC tr hs cs) (habs : Lockset.HBC.AbstractsC tr hs Gen.Access.aggLoop site mid) :
+    ¬ Lockset.HBC.RaceC tr :=
+  lockset_roles_sound_given_abstraction _ lockset_ok.2.2.2.2.2.2 hex habs
+
+/-- **Boundary (seeded/C05-outputdone-close): `close(outputDone)` in place of the send gives no such order.**  The
+    run "the ticker locks `outputMutex` and renders · main closes the channel and renders without the lock · the
+    ticker unlocks and observes the closed channel" is an execution of the model; the ticker holds the mutex
+    exclusively during its render; the close IS synchronised before the ticker's receive (event 3 → event 6) – and
+    the periodic render and the final render are a data race: the edge of a `close` points from main to the ticker,
+    the edge of the unbuffered send pointed from the ticker to main. -/
+theorem handshake_close_race_counterexample :
+    Lockset.HBC.ExecC Lockset.HBC.closeDemo (Lockset.HB2.statesOf (Lockset.HBC.closeDemo.map Lockset.HBC.proj))
+      (Lockset.HBC.cstatesOf Lockset.HBC.closeDemo) ∧
+    Lockset.HB2.Holds (Lockset.HB2.statesOf (Lockset.HBC.closeDemo.map Lockset.HBC.proj) 2) 0 2 true ∧
+    Lockset.HBC.HBc Lockset.HBC.closeDemo 3 6 ∧
+    Lockset.HBC.RaceC Lockset.HBC.closeDemo :=
+  Lockset.HBC.close_race
+
+/-- The syntactic side conditions of the hand-shake, read off the regenerated sources: `outputDone` is made without
+    capacity (first statement), the ticker goroutine's `select` has the case `<-outputDone` whose body only returns,
+    there is exactly one receive from and one send on `outputDone`, the send is directly followed by the final
+    `writeOutput()`; and in the role table the writes made WITHOUT a lock are exactly main's two – making the channel
+    (before the `go`) and the final `writeOutput()` (after the hand-shake) –, both marked as ordered with `go1`. -/
+theorem handshake_skeleton :
+    Gen.Skeleton.runAggregationLoop.head? = some "makechan:0" ∧
+    ["go{", "for{", "select{", "recv:outputDone", "return"] <:+: Gen.Skeleton.runAggregationLoop ∧
+    Gen.Skeleton.runAggregationLoop.count "recv:outputDone" = 1 ∧
+    Gen.Skeleton.runAggregationLoop.count "send:outputDone" = 1 ∧
+    ["send:outputDone", "call:writeOutput"] <:+ Gen.Skeleton.runAggregationLoop ∧
+    ((Gen.Access.aggLoop.filter fun a => a.write && a.lock == "").map fun a => (a.fn, a.field, a.obj, a.ord)) =
+      [("main", "outputDone", "var", ["go1"]), ("main", "writeOutput", "ref", ["go1"])] := by
+  refine ⟨by decide, by decide, by decide, by decide, by decide, by decide⟩
+
+/-- Non-vacuity of `lockset_roles_sound_given_abstraction` / `lockset_disciplines_chan_sound`: the hand-shake run
+    (spawn · periodic render · send begins · the ticker receives and does nothing more · send completes · final render)
+    is an execution, satisfies `AbstractsC` with the two `writeOutput` rows (shaped as the rows of the regenerated
+    table), the rows pass the role check – and the run is race free although neither render holds a lock in it. -/
+example : Lockset.HBC.ExecC Lockset.HBC.hsDemo (Lockset.HB2.statesOf (Lockset.HBC.hsDemo.map Lockset.HBC.proj))
+      (Lockset.HBC.cstatesOf Lockset.HBC.hsDemo) ∧
+    Lockset.HBC.AbstractsC Lockset.HBC.hsDemo (Lockset.HB2.statesOf (Lockset.HBC.hsDemo.map Lockset.HBC.proj))
+      [Lockset.HBC.rowTick, Lockset.HBC.rowFinal] Lockset.HBC.hsSite (fun _ => 0) ∧
+    ¬ Lockset.HBC.RaceC Lockset.HBC.hsDemo :=
+  ⟨Lockset.HBC.hsDemo_exec, Lockset.HBC.hsDemo_abstracts, Lockset.HBC.hsDemo_no_race⟩
 
 /-- Non-vacuity: two threads that each lock, write the same location and unlock form an execution that
     satisfies the hypotheses. -/
